@@ -27,16 +27,17 @@ class Ble:
         self.other = RF24(spi, 0, sim.Pin(self.chip)) if share else None
         self.ble = fake_ble.FakeBLE(spi, 0, sim.Pin(self.chip))
 
-    def advertise(self, chunks=None, single=None):
-        """chunks: list of AD-structure byte strings (list form); single: (buf, data_type) form"""
+    def advertise(self, chunks=None, single=None, want=None, same_container=False):
+        """chunks: list of AD-structure byte strings (list form); single: (buf, data_type) form.
+        want: what the caller's chunks contained when they were built (a repeated call with the SAME objects)"""
         ble, chip = self.ble, self.chip
         if single is not None:
             buf, typ = single
             want = [list(self.m.chunk(buf, typ))] if buf else []
             arg = (buf, typ)
         else:
-            want = [list(c) for c in chunks]
-            arg = (list(chunks),)
+            want = [list(c) for c in chunks] if want is None else want
+            arg = (chunks if same_container else list(chunks),)
         flat = b"".join(bytes(c) for c in want)
         try:
             la = ble.len_available(flat)
@@ -92,7 +93,15 @@ def input_vectors(args):
                 for n in sizes:
                     body = bytes(rng.randrange(256) for _ in range(max(0, n - 2)))
                     chunks.append(b.m.chunk(body, rng.choice([0x16, 0xFF])))
-                ev = b.advertise(chunks=chunks if rng.random() < 0.5 else tuple(chunks))
+                cont = chunks if rng.random() < 0.5 else tuple(chunks)
+                orig = [list(c) for c in chunks]
+                ev = b.advertise(chunks=cont, same_container=True)
+                if len(chunks) >= 2 and ev["exc"] == "none":
+                    # the documented loop `advertise(buffers); hop_channel()` re-uses the same container and chunk objects
+                    ev["spec"] = [nlen, ntype, show, pa, list(sizes), hops, form]
+                    out.append(ev)
+                    ble.hop_channel()
+                    ev = b.advertise(chunks=cont, want=orig, same_container=True)
             ev["spec"] = [nlen, ntype, show, pa, list(sizes), hops, form]
             out.append(ev)
     return out
